@@ -130,7 +130,24 @@ fn main() {
     for _ in 0..extra {
         rows.push((rng.range(0, 24) as u32, *rng.pick(&[0u32, 1, 20, 600, 1000, 1200, 5000, 10_000, 60_000]), rng.range(0, 12) as u32, *rng.pick(&[0u32, 1, 20, 200, 300, 500, 600, 1000, 1200, 2500, 5000, 10_000])));
     }
+    // constructed servable geometries (the grid and the random rows are mostly unservable):
+    // ring of n buckets of bl ms, default window of k | n buckets read as sc | k samples
+    for _ in 0..(if opts.thorough() { 6_000 } else { 400 }) {
+        let n = rng.range(1, 24) as u32;
+        let bl = *rng.pick(&[1u32, 5, 50, 100, 250, 500, 1000, 3000]);
+        let divs = |x: u32| -> Vec<u32> { (1..=x).filter(|d| x % d == 0).collect() };
+        let k = *rng.pick(&divs(n));
+        let sc = *rng.pick(&divs(k));
+        rows.push((n, n * bl, sc, k * bl));
+    }
     let mut base = T0_MS + 1_000_000_000 * (1 + opts.shard);
+    // the geometry in effect: the documented defaults until the first accepted initialisation
+    let mut in_effect: (u32, u32, u32, u32) = (
+        config::global_stat_sample_count_total(),
+        config::global_stat_interval_ms_total(),
+        config::metric_stat_sample_count(),
+        config::metric_stat_interval_ms(),
+    );
     for (i, (sct, ivt, sc, iv)) in rows.iter().cloned().enumerate() {
         if i as u64 % opts.nshards != opts.shard {
             continue;
@@ -140,6 +157,7 @@ fn main() {
         let want = servable(sct, ivt, sc, iv);
         let case = json!({"sample_count_total": sct, "interval_ms_total": ivt, "sample_count": sc, "interval_ms": iv, "via": if by_yaml { "yaml" } else { "entity" }});
         let e = entity(sct, ivt, sc, iv, &scratch);
+        let before = common::catch(getters);
         let init = common::catch(|| {
             if by_yaml {
                 let path = format!("{scratch}/c17-{i}.yaml");
@@ -178,10 +196,41 @@ fn main() {
             continue;
         }
         if !accepted {
+            // a rejected configuration must not be in effect: the getters still answer as before the
+            // call and statistics keep working with the geometry that was in effect, on both threads
             rep.case(Some(sig), || case.clone());
+            rep.count("rejected_configurations_probed", 1);
+            let after = common::catch(getters);
+            let (esct, eivt, esc, eiv) = in_effect;
+            let here = probe_thread("rej-main", base, eiv, eivt / esct);
+            let there = std::thread::spawn(move || {
+                common::install_panic_capture();
+                probe_thread("rej-spawned", base + 500_000, eiv, eivt / esct)
+            })
+            .join()
+            .unwrap_or_else(|_| Err("spawned thread died".into()));
+            match (&before, &after, &here, &there) {
+                (Ok(b), Ok(a), _, _) if a != b => rep.violation("rejected/configuration-changed-although-rejected", format!("getters before the rejected call {b:?}, after it {a:?}"), case),
+                (_, Err(p), _, _) => rep.violation(&format!("rejected/getters-panic/{}", common::panic_site(p)), p.clone(), case),
+                (_, _, Err(p), _) => rep.violation(&format!("rejected/panic-on-initialising-thread/{}", common::panic_site(p)), p.clone(), case),
+                (_, _, _, Err(p)) => rep.violation(&format!("rejected/panic-on-other-thread/{}", common::panic_site(p)), p.clone(), case),
+                (_, _, Ok(h), Ok(t)) => {
+                    if h.1 != in_effect || t.1 != in_effect {
+                        rep.violation("rejected/geometry-changed-although-rejected", format!("in effect {in_effect:?}, nodes created after the rejected call have {:?} / {:?}", h.1, t.1), case);
+                    } else if !h.2.is_empty() || !t.2.is_empty() {
+                        rep.violation("rejected/behaviour-changed", format!("{} {}", h.2, t.2), case);
+                    }
+                }
+            }
+            if common::catch(stat::reset_resource_map).is_err() || !rep.violations.is_empty() && rep.violations.last().map(|v| v.sig.contains("panic")).unwrap_or(false) {
+                // a panic under a global lock leaves this process unusable: report what was found and stop the shard
+                rep.notes.push("stopped after a panic inside the library (global state poisoned)".into());
+                rep.finish();
+            }
             continue;
         }
         rep.count("accepted_configurations", 1);
+        in_effect = (sct, ivt, sc, iv);
         let bl = ivt / sct;
         // ---- the initialising thread
         let here = probe_thread("main", base, iv, bl);
